@@ -22,6 +22,7 @@ from fractions import Fraction  # noqa: E402
 import numpy as np  # noqa: E402
 
 THEOREMS = [
+    'AbacusVerif.Binning.lead_is_least',
     'AbacusVerif.Binning.fold_is_fftfreq',
     'AbacusVerif.Binning.hermitian_reindex',
     'AbacusVerif.Binning.kmu_search_inbounds',
@@ -32,6 +33,10 @@ THEOREMS = [
     'AbacusVerif.Binning.kmu_means',
     'AbacusVerif.Binning.monopole_is_mu_average',
     'AbacusVerif.Binning.legendre_table',
+    'AbacusVerif.Binning.Pn_zero',
+    'AbacusVerif.Binning.Pn_two',
+    'AbacusVerif.Binning.Pn_four',
+    'AbacusVerif.Binning.kmu_pole_sums_partial',
 ]
 DRIVER = 'drv_c08'
 RULE = ('every mesh size n in 1..12 (quick) / 1..24 (thorough), odd and even, x dtype float32/float64 x k-edge families '
